@@ -372,6 +372,10 @@ def render_rust(maps):
                 p = "%s::%s" % (f.name, r.name)
                 o.append("            v.push(<%s as Register>::ADDRESS as i128); v.push(<%s as Register>::LENGTH as i128); "
                          "v.push(<%s as Register>::ACCESS_RIGHT.as_num() as i128);" % (p, p, p))
+        for f in m.frags:
+            for r in f.regs:
+                if r.kind == "bf":
+                    o.append("            v.push(%s::%s::LSB as i128); v.push(%s::%s::MSB as i128);" % (f.name, r.name, f.name, r.name))
         o.append("            v")
         o.append("        }")
         o.append("        fn dispatch(&mut self, st: &mut crate::St, k: usize, op: &crate::RegOp) -> Vec<i128> {")
